@@ -40,6 +40,7 @@ def plan(tier, seed):
     for i in range(16 if tier == "quick" else 400):
         jobs.append({"k": "rand", "i": i, "seed": seed})
     jobs.append({"k": "nested", "seed": seed})
+    jobs.append({"k": "huge", "seed": seed})
     for bi in range(len(BIG_PATTERNS)):
         jobs.append({"k": "big", "p": bi})
     return jobs
@@ -99,6 +100,15 @@ def run_job(job, ctx):
         pat = BIG_PATTERNS[job["p"]]
         blocks = [vbatch.BBlock([("line-pattern", pat)], list(seq)) for L in (1, 2) for seq in itertools.product(ALPHA[:8], repeat=L)]
         for c in vbatch.run_batch(ctx, blocks, "hash", "line-pattern", model, sig_prefix="C08", sets_fn=_sets):
+            acc.add(c)
+    elif job["k"] == "huge":
+        # 70,000 matching lines with one offender beyond line 65,536
+        lines = ["k%06d" % i for i in range(70000)]
+        bad = list(lines)
+        bad[69993] = "K-oops"
+        blocks = [vbatch.BBlock([("line-pattern", "^k[0-9]+$")], ["k1", "k2"]) for _ in range(100)]
+        blocks += [vbatch.BBlock([("line-pattern", "^k[0-9]+$")], bad), vbatch.BBlock([("line-pattern", "^k[0-9]+$")], lines)]
+        for c in vbatch.run_batch(ctx, blocks, "hash", "line-pattern", model, sig_prefix="C08", prefix="huge", sets_fn=_sets):
             acc.add(c)
     elif job["k"] == "nested":
         # nested blocks: the inner blocks' tag lines are ordinary lines (keys) of the outer block, and each inner block is
